@@ -946,3 +946,37 @@ func VH_long(kind int, n int) {
 	toks = append(toks, token.Token{Type: token.EOF, Lexeme: "", Line: 1})
 	checkAgainstReference(toks)
 }
+
+// infixTypes: the binary and logical operators of the ladder (every level has at least one).
+var infixTypes = []token.TokenType{
+	token.LOGICAL_OR, token.LOGICAL_AND, token.OR, token.XOR, token.AND,
+	token.EQUAL_EQUAL, token.BANG_EQUAL, token.GREATER, token.GREATER_EQUAL, token.LESS, token.LESS_EQUAL,
+	token.LEFT_SHIFT, token.RIGHT_SHIFT, token.PLUS, token.MINUS, token.STAR, token.SLASH, token.MODULO, token.POWER,
+}
+
+// VH_ops: operand (op operand)^k ; where every op is an arbitrary infix operator of the ladder
+// — every ordered k-tuple of levels (k = 3: low-high-middle and the other 6 858 shapes), which
+// the all-token-types holes reach only in the thorough tier.
+func VH_ops(k int) {
+	toks := []token.Token{}
+	n := 0
+	for i := 0; i <= k; i++ {
+		toks = append(toks, mkTok(n, token.IDENTIFIER))
+		n++
+		if i < k {
+			ty := anyType()
+			ok := false
+			for _, t := range infixTypes {
+				if ty == t {
+					ok = true
+				}
+			}
+			verifAssume(ok)
+			toks = append(toks, mkTok(n, ty))
+			n++
+		}
+	}
+	toks = append(toks, mkTok(n, token.SEMICOLON))
+	toks = append(toks, token.Token{Type: token.EOF, Lexeme: "", Line: 1})
+	checkAgainstReference(toks)
+}
